@@ -4,14 +4,17 @@ From PG Require Import Lib.Strs Model.Wire Proofs.Wire.
 
 (* The full statement
      C04_full : forall mn o a, well_typed mn o a = true -> exists r, call mn o a = Some r /\ Spec o a r
-   is still FALSE: C04_refuted_F04b/c/d/f/i/k below give six well-typed calls of the faithful model that
-   violate it (each replayed on a generated client, corpus/C04/).  F04a (cookies), F04e (Enum values),
+   is still FALSE: C04_refuted_F04c/d/f/i/k below give five well-typed calls of the faithful model that
+   violate it (each replayed on a generated client, corpus/C04/).  F04a (cookies), F04b (multi-content
+   dispatch), F04e (Enum values),
    F04g (Content-Type of raw bodies) and F04h (percent-encoding of path values) are FIXED in the code:
    their guard conjuncts are gone and their witnesses now lie inside C04_partial (C04_fixed_witnesses).
 
    C04_partial: for EVERY sanitiser mn, EVERY operation and EVERY argument assignment (any number of
    parameters in any location and order, any subset of the optional arguments, any of the declared
-   content types): if the call is well typed and meets the six executable guards, the generated method
+   content types): if the call is well typed and meets the six executable guards (F04c, F04d, F04f, F04i,
+   F04k and F04j = media types other than json/multipart/form inside a multi-content operation, an observed
+   defect that is outside the model), the generated method
    issues exactly one request, and that request has the operation's method, the path a router sees is the
    template with each variable replaced by the caller's value (segment by segment, after httpx's
    dot-segment normalisation), exactly the supplied
@@ -22,14 +25,6 @@ Theorem C04_partial : forall mn o a,
   exists r, call mn o a = Some r /\ Spec o a r.
 Proof. exact partial. Qed.
 Print Assumptions C04_partial.
-
-(* several request content types: a supplied query parameter is dropped *)
-Theorem C04_refuted_F04b :
-  well_typed (mn_of tbl_F04b) op_F04b args_F04b = true
-  /\ guards (mn_of tbl_F04b) op_F04b args_F04b = [false; true; true; true; true; true]
-  /\ ~ holds (mn_of tbl_F04b) op_F04b args_F04b.
-Proof. exact refuted_F04b. Qed.
-Print Assumptions C04_refuted_F04b.
 
 (* a path-level parameter repeated at operation level: duplicate argument, no request at all *)
 Theorem C04_refuted_F04c :
@@ -71,9 +66,10 @@ Theorem C04_refuted_F04k :
 Proof. exact refuted_F04k. Qed.
 Print Assumptions C04_refuted_F04k.
 
-(* regression: the witnesses of the fixed findings F04a, F04e, F04g, F04h are well typed and meet every guard *)
+(* regression: the witnesses of the fixed findings F04a, F04b, F04e, F04g, F04h are well typed and meet every guard *)
 Theorem C04_fixed_witnesses :
   (well_typed (mn_of tbl_F04a) op_F04a args_F04a && guard (mn_of tbl_F04a) op_F04a args_F04a
+   && well_typed (mn_of tbl_F04b) op_F04b args_F04b && guard (mn_of tbl_F04b) op_F04b args_F04b
    && well_typed (mn_of tbl_F04e) op_F04e args_F04e && guard (mn_of tbl_F04e) op_F04e args_F04e
    && well_typed (mn_of tbl_F04g) op_F04g args_F04g && guard (mn_of tbl_F04g) op_F04g args_F04g
    && well_typed (mn_of tbl_F04h) op_F04h args_F04h && guard (mn_of tbl_F04h) op_F04h args_F04h) = true.
